@@ -466,4 +466,204 @@ theorem body_cases (tx : Tx) (f : Frame) (hf : Fresh f) : BodyCase tx f (body fi
         · rw [h.2.2.2.2.2.1]; exact ha_vm
         · rw [h.2.2.2.2.2.2.2]; exact ha_mode
 
+
+/-! ### runFrame / runTx in DeliverTx mode -/
+
+theorem post_result_ne_ok (f : Frame) (h : f.result ≠ .ok ∨ f.pan ≠ none) : (post f).result ≠ .ok := by
+  intro hok
+  have := post_result_ok f hok
+  rcases h with h | h
+  · exact h this.1
+  · exact h this.2.1
+
+/-- body + the three defers on a fresh DeliverTx frame -/
+theorem runFrame_spec (tx : Tx) (f : Frame) (hf : Fresh f) :
+    ((runFrame finishDeliver tx f).res = .ok →
+        (runFrame finishDeliver tx f).anteDone = true ∧
+        (runFrame finishDeliver tx f).store = msgW tx ++ (anteW tx ++ f.parent) ∧
+        (runFrame finishDeliver tx f).vm = msgW tx ++ f.vm ∧
+        (runFrame finishDeliver tx f).hook = .ok) ∧
+    ((runFrame finishDeliver tx f).res ≠ .ok →
+        (runFrame finishDeliver tx f).store =
+          (if (runFrame finishDeliver tx f).anteDone = true then anteW tx ++ f.parent else f.parent) ∧
+        (runFrame finishDeliver tx f).vm = f.vm ∧
+        (runFrame finishDeliver tx f).hook ≠ .ok) := by
+  rw [runFrame_eq]
+  have pf := post_frame (body finishDeliver tx f)
+  have hres : (post (body finishDeliver tx f)).out.res = (post (body finishDeliver tx f)).result := rfl
+  have hstore : (post (body finishDeliver tx f)).out.store = (post (body finishDeliver tx f)).parent := rfl
+  have hvm : (post (body finishDeliver tx f)).out.vm = (post (body finishDeliver tx f)).vm := rfl
+  have hhook : (post (body finishDeliver tx f)).out.hook = (post (body finishDeliver tx f)).hook := rfl
+  have hdone : (post (body finishDeliver tx f)).out.anteDone = (post (body finishDeliver tx f)).anteDone := rfl
+  rw [hres, hstore, hvm, hhook, hdone, pf.1, pf.2.1, pf.2.2.1, pf.2.2.2.2.2.2.2.2]
+  cases body_cases tx f hf with
+  | noAnte h1 h2 h3 h4 h5 h6 h7 =>
+    have hne := post_result_ne_ok _ h7
+    refine ⟨fun h => absurd h hne, fun _ => ?_⟩
+    simp [h1, h2, h3, h4, h5]
+  | committed h1 h2 h3 h4 h5 h6 h7 h8 h9 =>
+    have hok : (post (body finishDeliver tx f)).result = .ok := by
+      rw [post_result_eq_of_settled _ h2 h8]; exact h3
+    refine ⟨fun _ => ?_, fun h => absurd hok h⟩
+    simp [h1, h4, h5, h6, h7]
+  | handled h1 h2 h3 h4 h5 h6 h7 h8 =>
+    have hne := post_result_ne_ok _ (.inl h3)
+    refine ⟨fun h => absurd h hne, fun _ => ?_⟩
+    simp [h1, h4, h5, h6, h7]
+  | pending h1 h2 h3 h4 h5 h6 h7 h8 =>
+    have hne := post_result_ne_ok _ (.inr h2)
+    refine ⟨fun h => absurd h hne, fun _ => ?_⟩
+    simp [h1, h3, h4, h5, h6, h7, h8]
+
+/-- the three ways DeliverTx's runTx starts: a crash of the prelude (impossible for a
+well-formed block meter), the "no block gas left" early exit, or body + defers -/
+theorem runTx_deliver_cases (fin : Frame → Store → Frame) (tx : Tx) (parent : Store) (block ctxMeter : Meter)
+    (vm : Store) :
+    (runTxWith fin .deliver tx parent block ctxMeter vm =
+        { (Frame.init .deliver parent block ctxMeter vm).out with crash := true }) ∨
+    (∃ head, block.isOutOfGas = true ∧ block.remaining = .ok head.limit ∧ head.consumed = 0 ∧
+      runTxWith fin .deliver tx parent block ctxMeter vm =
+        { (Frame.init .deliver parent block (Meter.pass ctxMeter head) vm).out with res := .oog }) ∨
+    (∃ head, block.isOutOfGas = false ∧ block.remaining = .ok head.limit ∧ head.consumed = 0 ∧
+      runTxWith fin .deliver tx parent block ctxMeter vm =
+        runFrame fin tx { Frame.init .deliver parent block (Meter.pass ctxMeter head) vm with
+                          startingGas := block.gasConsumed }) := by
+  unfold runTxWith
+  simp only
+  cases hrem : block.remaining with
+  | error e => exact .inl rfl
+  | ok gasleft =>
+    simp only
+    cases hnew : Basic.new gasleft with
+    | error e => exact .inl rfl
+    | ok head =>
+      simp only
+      have hh : head.limit = gasleft ∧ head.consumed = 0 := by
+        unfold Basic.new at hnew
+        split at hnew
+        · cases hnew
+        · cases hnew; exact ⟨rfl, rfl⟩
+      by_cases hoog : block.isOutOfGas = true
+      · exact .inr (.inl ⟨head, hoog, by rw [hh.1], hh.2, by simp [hoog]⟩)
+      · have hf : block.isOutOfGas = false := by simpa using hoog
+        exact .inr (.inr ⟨head, hf, by rw [hh.1], hh.2, by simp [hf]⟩)
+
+theorem fresh_init (parent : Store) (block inc : Meter) (vm : Store) (s : Int) :
+    Fresh { Frame.init .deliver parent block inc vm with startingGas := s } :=
+  ⟨rfl, rfl, rfl, rfl, rfl, rfl, rfl, rfl⟩
+
+
+/-! ### CheckTx and Simulate -/
+
+theorem post_of_not_deliver (f : Frame) (hm : f.mode ≠ .deliver) :
+    (post f).parent = f.parent ∧ (post f).block = f.block ∧
+    (post f).result = (match f.pan with | some .oog => .oog | some .other => .internal | none => f.result) := by
+  have h1 : deferWriteCheckpoint f = f := by simp [deferWriteCheckpoint, hm]
+  have h2 : consumeBlockGas f = f := consumeBlockGas_noop_mode f hm
+  simp only [post, deferConsumeBlockGas, h1, h2]
+  have := deferRecover_frame f
+  exact ⟨this.1, this.2.2.2.2.2.2.2.2.1, deferRecover_result f⟩
+
+theorem afterMsgs_not_deliver (fin : Frame → Store → Frame) (f : Frame) (r : MsgsRes) (hm : f.mode ≠ .deliver) :
+    (afterMsgs fin f r).parent = f.parent ∧ (afterMsgs fin f r).vm = f.vm ∧ (afterMsgs fin f r).hook = f.hook ∧
+    (afterMsgs fin f r).mode = f.mode ∧ (afterMsgs fin f r).block = f.block := by
+  unfold afterMsgs
+  cases r.pan with
+  | some p => simp
+  | none => simp [hm]
+
+/-- Simulate: body + defers leave the store, the side cache and the block meter alone -/
+theorem runFrame_simulate (fin : Frame → Store → Frame) (tx : Tx) (f : Frame) (hm : f.mode = .simulate)
+    (hh : f.hook = .none) :
+    (runFrame fin tx f).store = f.parent ∧ (runFrame fin tx f).vm = f.vm ∧
+    (runFrame fin tx f).hook = .none ∧ (runFrame fin tx f).block = f.block := by
+  rw [runFrame_eq]
+  have hne : ∀ g : Frame, g.mode = .simulate → g.mode ≠ .deliver := by intro g h; rw [h]; simp
+  suffices hb : (body fin tx f).parent = f.parent ∧ (body fin tx f).vm = f.vm ∧
+      (body fin tx f).hook = .none ∧ (body fin tx f).block = f.block ∧ (body fin tx f).mode = .simulate by
+    have hp := post_of_not_deliver _ (hne _ hb.2.2.2.2)
+    have pf := post_frame (body fin tx f)
+    refine ⟨?_, ?_, ?_, ?_⟩
+    · show (post (body fin tx f)).parent = _; rw [hp.1]; exact hb.1
+    · show (post (body fin tx f)).vm = _; rw [pf.1]; exact hb.2.1
+    · show (post (body fin tx f)).hook = _; rw [pf.2.1]; exact hb.2.2.1
+    · show (post (body fin tx f)).block = _; rw [hp.2.1]; exact hb.2.2.2.1
+  unfold body
+  cases preAnte tx with
+  | some r => exact ⟨rfl, rfl, hh, rfl, hm⟩
+  | none =>
+    simp only
+    cases (runAnte tx.ante tx.gasWanted f.parent f.cur).out with
+    | pan p => exact ⟨rfl, rfl, hh, rfl, hm⟩
+    | abort oog => exact ⟨rfl, rfl, hh, rfl, hm⟩
+    | done =>
+      simp only
+      generalize hA : anteFrame tx f (runAnte tx.ante tx.gasWanted f.parent f.cur) = fa
+      have ha_mode : fa.mode = .simulate := by rw [← hA]; exact hm
+      have e : afterAnte fin tx fa =
+          afterMsgs fin (msgsFrame tx fa (runMsgs tx.msgs (msgsEnv fa) 0)) (runMsgs tx.msgs (msgsEnv fa) 0) := by
+        simp [afterAnte, ha_mode]
+      rw [e]
+      have hmm : (msgsFrame tx fa (runMsgs tx.msgs (msgsEnv fa) 0)).mode ≠ .deliver := hne _ ha_mode
+      have := afterMsgs_not_deliver fin _ (runMsgs tx.msgs (msgsEnv fa) 0) hmm
+      refine ⟨?_, ?_, ?_, ?_, ?_⟩
+      · rw [this.1, ← hA]; rfl
+      · rw [this.2.1, ← hA]; rfl
+      · rw [this.2.2.1, ← hA]; exact hh
+      · rw [this.2.2.2.2, ← hA]; rfl
+      · rw [this.2.2.2.1]; exact ha_mode
+
+/-- CheckTx: only the ante runs; its writes are flushed iff it completed -/
+theorem runFrame_check (fin : Frame → Store → Frame) (tx : Tx) (f : Frame) (hm : f.mode = .check)
+    (hh : f.hook = .none) (hp : f.pan = none) (hr : f.result = .ok) (_hd : f.anteDone = false) (hn : f.msgsRan = 0) :
+    ((runFrame fin tx f).res = .ok →
+        (runFrame fin tx f).anteDone = true ∧ (runFrame fin tx f).store = anteW tx ++ f.parent) ∧
+    ((runFrame fin tx f).res ≠ .ok → (runFrame fin tx f).store = f.parent) ∧
+    (runFrame fin tx f).vm = f.vm ∧ (runFrame fin tx f).hook = .none ∧
+    (runFrame fin tx f).block = f.block ∧ (runFrame fin tx f).msgsRan = 0 := by
+  rw [runFrame_eq]
+  have hne : ∀ g : Frame, g.mode = .check → g.mode ≠ .deliver := by intro g h; rw [h]; simp
+  suffices hb : (body fin tx f).vm = f.vm ∧ (body fin tx f).hook = .none ∧ (body fin tx f).block = f.block ∧
+      (body fin tx f).mode = .check ∧ (body fin tx f).msgsRan = 0 ∧
+      (((body fin tx f).result ≠ .ok ∨ (body fin tx f).pan ≠ none) ∧ (body fin tx f).parent = f.parent ∨
+       ((body fin tx f).result = .ok ∧ (body fin tx f).pan = none ∧ (body fin tx f).anteDone = true ∧
+        (body fin tx f).parent = anteW tx ++ f.parent)) by
+    have hp' := post_of_not_deliver _ (hne _ hb.2.2.2.1)
+    have pf := post_frame (body fin tx f)
+    have hres : (post (body fin tx f)).out.res = (post (body fin tx f)).result := rfl
+    have hstore : (post (body fin tx f)).out.store = (post (body fin tx f)).parent := rfl
+    have hdone : (post (body fin tx f)).out.anteDone = (post (body fin tx f)).anteDone := rfl
+    rw [hres, hstore, hdone, hp'.1, pf.2.2.1]
+    refine ⟨?_, ?_, ?_, ?_, ?_, ?_⟩
+    · intro hok
+      rcases hb.2.2.2.2.2 with h | h
+      · exact absurd hok (post_result_ne_ok _ h.1)
+      · exact ⟨h.2.2.1, h.2.2.2⟩
+    · intro hnok
+      rcases hb.2.2.2.2.2 with h | h
+      · exact h.2
+      · exfalso; apply hnok; rw [hp'.2.2, h.2.1]; exact h.1
+    · show (post (body fin tx f)).vm = _; rw [pf.1]; exact hb.1
+    · show (post (body fin tx f)).hook = _; rw [pf.2.1]; exact hb.2.1
+    · show (post (body fin tx f)).block = _; rw [hp'.2.1]; exact hb.2.2.1
+    · show (post (body fin tx f)).msgsRan = _; rw [pf.2.2.2.2.1]; exact hb.2.2.2.2.1
+  unfold body
+  cases hpre : preAnte tx with
+  | some r => exact ⟨rfl, hh, rfl, hm, hn, .inl ⟨.inl (preAnte_ne_ok tx r hpre), rfl⟩⟩
+  | none =>
+    simp only
+    cases hout : (runAnte tx.ante tx.gasWanted f.parent f.cur).out with
+    | pan p => exact ⟨rfl, hh, rfl, hm, hn, .inl ⟨.inr (by simp), rfl⟩⟩
+    | abort oog => exact ⟨rfl, hh, rfl, hm, hn, .inl ⟨.inl (by cases oog <;> simp), rfl⟩⟩
+    | done =>
+      have hcache := runAnte_done _ _ _ _ hout
+      simp only
+      generalize hA : anteFrame tx f (runAnte tx.ante tx.gasWanted f.parent f.cur) = fa
+      have ha_mode : fa.mode = .check := by rw [← hA]; exact hm
+      have e : afterAnte fin tx fa = { fa with parent := fa.cache ++ fa.parent, cache := [] } := by
+        simp [afterAnte, ha_mode]
+      rw [e, ← hA]
+      refine ⟨rfl, hh, rfl, hm, hn, .inr ⟨hr, hp, rfl, ?_⟩⟩
+      simp [anteFrame, hcache, anteW]
+
 end GnoVerif.C02
